@@ -39,7 +39,8 @@ def mk_image(interp, label, mode, H, W, buffer_for=None):
         # type invariant of F16x3 data handled by toasty: a pixel is NaN in all channels or in none
         nanf = z3.Function(fresh_name(label + ".pixnan"), z3.IntSort(), z3.IntSort(), z3.BoolSort())
         inner = arr.fn
-        arr.fn = lambda idx, inner=inner, nanf=nanf: FPix(nanf(z3num(idx[0]), z3num(idx[1])), inner(idx).val)
+        arr.fn = lambda idx, inner=inner, nanf=nanf: FPix(nanf(z3num(idx[0]), z3num(idx[1])), inner(idx).val,
+                                                          ops.conj([inner(idx).inf, ops.negate(nanf(z3num(idx[0]), z3num(idx[1])))]))
     return Inst("Image", module="toasty.image", fields={
         "_array": arr, "_mode": mode_val(mode), "_pil": None, "_default_format": "png", "_wcs": None,
         "_data_min": None, "_data_max": None})
